@@ -377,6 +377,15 @@ Inductive case :=
      NXDOMAIN, whether the former child was asked *)
 | CaseNest (ttl_tld ttl_a ttl_s : Z) (nprov : nat) (warm : option (Z * Z)) (t0 h0 h1 t1 : Z) (cancelled aborted : bool)
            (delegs : list (option Z)) (ans nsaddr : option (Z * Z * option Z)) (t4 : Z) (nx child_asked : bool)
+  (* full pipeline, an alias in the outer zone a.tld. onto a name in the target zone b.tld. (both delegated by tld.,
+     with their own leases): DNAME leg followed by the resolver (dname = true) or CNAME chased by the cache layer;
+     per-zone NS TTLs (s), TTL the outer entry is admitted with and TTL of the target's answer / denial (ns),
+     bracket of an optional warm-up tree that cached b.tld. beforehand, bracket of the tree; observed: stored
+     delegation expiries (tld., a.tld., b.tld.), the entries admitted for the outer and for the target question;
+     then after tld. re-pointed / withdrew b.tld.: instant of the repeated question, whether the reply carried the
+     old target servers' data, whether they were asked *)
+| CaseAlias (dname : bool) (ttl_tld ttl_a ttl_b : Z) (outer_ttl msg_ttl : Z) (warm : option (Z * Z)) (t0 t1 : Z)
+            (delegs : list (option Z)) (outer target : option (Z * Z * option Z)) (t4 : Z) (from_old old_asked : bool)
   (* full pipeline against the scripted world *)
 | CaseLab (zone_srv : list (zone * N)) (trees : list ltree).
 
@@ -440,6 +449,30 @@ Definition nest_run (hi : bool) (ttl_tld ttl_a ttl_s : Z) (nprov : nat) (warm : 
       run code_fx (ASeed 0 0 nest_q false ta :: tail) (fresh_tree st)
   | None =>
       run code_fx (ASeed 0 0 nest_q false ta :: nest_ref nest_ztld 1 ttl_tld ta :: nest_ref nest_za 2 ttl_a ta :: tail) st_init
+  end.
+
+(* ---- alias legs: the composed answer's tree (0) and the target leg's forked tree (1) *)
+Definition al_ztld : zone := [1%N].
+Definition al_za : zone := [1%N; 2%N].
+Definition al_zb : zone := [1%N; 3%N].
+Definition al_qo : zone := [1%N; 2%N; 4%N; 5%N].
+Definition al_qt : zone := [1%N; 3%N; 5%N].
+Definition al_qw : zone := [1%N; 3%N; 6%N].
+Definition al_ref (i : N) (z : zone) (srv : N) (ttl t : Z) : act :=
+  ARefer i (mk_ref z srv true ttl None true t false t [] false true true t).
+
+Definition alias_run (ttl_tld ttl_a ttl_b outer_ttl msg_ttl : Z) (warm : option Z) (t : Z) : state :=
+  (* the target leg resolves and admits the target's answer under its own tree; its cut is folded into the outer
+     tree where its records / its denial become part of the composed answer, which is admitted after that *)
+  let leg_tail := [AStore 1 2 msg_ttl t; AFold 0 1; AStore 0 1 outer_ttl t] in
+  match warm with
+  | Some w =>
+      let st := run code_fx [ASeed 0 0 al_qw false w; al_ref 0 al_ztld 1 ttl_tld w; al_ref 0 al_zb 3 ttl_b w;
+                             AStore 0 3 msg_ttl w] st_init in
+      run code_fx (ASeed 0 0 al_qo false t :: al_ref 0 al_za 2 ttl_a t :: ASeed 1 1 al_qt false t :: leg_tail) (fresh_tree st)
+  | None =>
+      run code_fx (ASeed 0 0 al_qo false t :: al_ref 0 al_ztld 1 ttl_tld t :: al_ref 0 al_za 2 ttl_a t ::
+                   ASeed 1 1 al_qt false t :: al_ref 1 al_zb 3 ttl_b t :: leg_tail) st_init
   end.
 
 Definition ole (a : option Z) (b : Z) : bool := match a with Some x => x <=? b | None => true end.
@@ -520,6 +553,23 @@ Definition check_case (c : case) : bool :=
       (* once the model's entry for s.a.tld. has run out the walk starts strictly above it *)
       (if ole (deleg_exp hi nest_zs) t4
        then strict_above (m_zone (search_cache (st_dc hi) t4 nest_q false)) nest_zs && negb child_asked
+       else true)
+  | CaseAlias dname ttl_tld ttl_a ttl_b outer_ttl msg_ttl warm t0 t1 delegs outer target t4 from_old old_asked =>
+      let lo := alias_run ttl_tld ttl_a ttl_b outer_ttl msg_ttl (option_map fst warm) t0 in
+      let hi := alias_run ttl_tld ttl_a ttl_b outer_ttl msg_ttl (option_map snd warm) t1 in
+      match delegs with
+      | [dt; da; db] =>
+          obetween (deleg_exp lo al_ztld) dt (deleg_exp hi al_ztld) &&
+          obetween (deleg_exp lo al_za) da (deleg_exp hi al_za) &&
+          obetween (deleg_exp lo al_zb) db (deleg_exp hi al_zb)
+      | _ => false
+      end &&
+      entry_between (entry_view lo 1%N) outer (entry_view hi 1%N) &&
+      entry_between (entry_view lo 2%N) target (entry_view hi 2%N) &&
+      (* once the model's delegation for b.tld. and both entries have lapsed, the repeated question is resolved
+         from strictly above b.tld.: nothing of the old target servers is served or asked *)
+      (if ole (deleg_exp hi al_zb) t4 && entry_dead hi 1%N t4 && entry_dead hi 2%N t4
+       then strict_above (m_zone (search_cache (st_dc hi) t4 al_qt false)) al_zb && negb from_old && negb old_asked
        else true)
   | CaseLab _ trees => lab_check st_init st_init trees
   end.
@@ -662,5 +712,21 @@ Definition spec_case (c : case) : bool :=
       match ans with Some x => entry_end x <=? l_s | None => true end &&
       match nsaddr with Some x => entry_end x <=? l_s | None => true end &&
       (if l_s <=? t4 then nx && negb child_asked else true)
+  | CaseAlias dname ttl_tld ttl_a ttl_b outer_ttl msg_ttl warm t0 t1 delegs outer target t4 from_old old_asked =>
+      (* leases from the published TTLs only; the composed answer was learned through BOTH zones' delegations
+         (the alias through a.tld., the target's records or denial through b.tld.): it ends within both leases,
+         whatever the alias's or the denial's own TTL; after b.tld.'s lease the old target servers are history *)
+      let capd ttl := Z.min (ttl * 1000000000) twelve_hours in
+      let obs_first := match warm with Some (_, w1) => w1 | None => t1 end in
+      let l_tld := obs_first + capd ttl_tld in
+      let l_a := Z.min l_tld (t1 + capd ttl_a) in
+      let l_b := Z.min l_tld (obs_first + capd ttl_b) in
+      match delegs with
+      | [dt; da; db] => ole dt l_tld && ole da l_a && ole db l_b
+      | _ => false
+      end &&
+      match outer with Some x => entry_end x <=? Z.min l_a l_b | None => true end &&
+      match target with Some x => entry_end x <=? l_b | None => true end &&
+      (if l_b <=? t4 then negb from_old && negb old_asked else true)
   | CaseLab zone_srv trees => lab_spec [] zone_srv trees
   end.
